@@ -76,6 +76,17 @@ ALPHABETS = {"full": ALPHABET,
                             w0=CORNER_NORMAL, w1=CORNER_NORMAL)}
 
 
+def alpha_of(block):
+    """Answer alphabets of a block: named base + the seed-dependent extra normal symbol (if any)."""
+    a = ALPHABETS[block.get("alpha", "full")]
+    x = block.get("extra_normal")
+    if x is not None:
+        a = dict(a)
+        for c in ("z", "zj", "zs", "z2", "w0", "w1"):
+            a[c] = list(a[c]) + [float(x)]
+    return a
+
+
 def components(gen):
     out = []
     for _, _, comps, _ in LAYOUT[gen]:
@@ -308,7 +319,7 @@ def site_of(block):
 
 
 def leaves_of(block, gen):
-    alpha = ALPHABETS[block.get("alpha", "full")]
+    alpha = alpha_of(block)
     J = joint_size(gen, alpha)
     if block.get("rows") is not None:
         return torch.tensor(block["rows"], dtype=torch.long).reshape(len(block["rows"]), -1)
@@ -446,17 +457,24 @@ def judge(block, res, n_paths, eff, twin=None, stats=None):
 
 
 def _nonfinite_class(block, res, r, eff):
-    """Classifier of a non-finite value from the failing path: float16 QE variance whose first
-    non-finite entry directly follows an exactly-zero variance (m^2 and s^2 of the QE step underflow)."""
+    """Classifier of a non-finite value from the failing path.  float16 QE variance: the first non-finite
+    entry follows a variance v for which the scheme's one-step variance
+    s^2 = v sigma^2 e(1-e)/kappa + theta sigma^2 (1-e)^2/(2 kappa), e = exp(-kappa dt)  (Andersen's QE)
+    is below 2^-24, the smallest positive float16: s^2 is computed as 0 (or as one subnormal ulp), psi = 0."""
     gen = gen_of(block)
     if eff != torch.float16 or gen not in ("cir", "heston"):
         return ""
     v = res["variance"] if "variance" in res else res[_fields(block)[0][0]]
     row = v[r].double()
     bad = (~torch.isfinite(row)).nonzero()
-    if len(bad) and int(bad[0]) >= 1 and float(row[int(bad[0]) - 1]) == 0.0:
-        return ":float16_step_after_zero_variance"
-    return ""
+    if not len(bad) or int(bad[0]) < 1:
+        return ""
+    prev = float(row[int(bad[0]) - 1])
+    p = block["params"]
+    kappa, theta, sigma, dt = p.get("kappa", 1.0), p.get("theta", 0.04), p.get("sigma", 0.2), p.get("dt", 1 / 250)
+    e = math.exp(-kappa * dt)
+    s2 = prev * sigma ** 2 * e * (1 - e) / kappa + theta * sigma ** 2 * (1 - e) ** 2 / (2 * kappa)
+    return ":float16_qe_s2_underflow" if 0 <= s2 < 2.0 ** -24 else ""
 
 
 def _range_exempt(twin, fields, exp_fields, finfo):
@@ -533,8 +551,7 @@ def _run_once(block, leaves, dtype, eff_default):
     """Owned call with requested ``dtype``; ``eff_default`` = effective dtype of the block under test
     (fixes the numeric values of the dtype-relative answer symbols).  Returns (res, exc, log)."""
     gen = gen_of(block)
-    ans = Answers(gen, leaves, uniform_p(gen, block["params"]), alpha=ALPHABETS[block.get("alpha", "full")],
-                  eff=eff_default)
+    ans = Answers(gen, leaves, uniform_p(gen, block["params"]), alpha=alpha_of(block), eff=eff_default)
     rng = ans.owned()
     try:
         with rng:
@@ -905,7 +922,11 @@ def _quick_tree(J, pi, form, values, default, dtype, n_steps, depth, init_values
     return True
 
 
+EXTRA_NORMALS = [2.0, -2.0, 4.0, -4.0, 0.5, -0.5, 16.0, -16.0]
+
+
 def _blocks_tree(ctx):
+    extra = ctx.extra_symbol("normal answer", EXTRA_NORMALS)
     dtypes = [None, "float16", "bfloat16", "float32", "float64"]
     for kind, names in (("gen", list(SC.GENERATORS)), ("inst", list(SC.INSTRUMENTS))):
         for name in names:
@@ -925,6 +946,8 @@ def _blocks_tree(ctx):
                                      "default": default, "n_steps": n_steps, "depth": depth}
                                 if ctx.quick and J > 125 and depth == 2:
                                     b["alpha"] = "corner"     # Kou: normals {0,+-8} at depth 2 in the quick tier
+                                if J < 75:
+                                    b["extra_normal"] = extra  # seed-dependent additional answer symbol
                                 yield b
 
 
@@ -977,6 +1000,8 @@ def run(ctx):
              "resimulate: all histories of 4 simulate() ops up to the depth + bfs to fixpoint over (names,shapes,dtypes)")
     ctx.alphabet("normal answers", NORMAL)
     ctx.alphabet("normal answers (Kou, depth 2, quick tier)", CORNER_NORMAL)
+    ctx.alphabet("seed-dependent extra normal answer (generators with < 75 joint symbols)",
+                 [ctx.extra_symbol("normal answer", EXTRA_NORMALS)])
     ctx.alphabet("uniform answers", UNIFORM)
     ctx.alphabet("poisson counts", COUNT)
     ctx.alphabet("exponential sizes", EXPO)
